@@ -98,6 +98,9 @@ func (x *Exec) doCall(f *Frame, st *State, instr ssa.CallInstruction, cc *ssa.Ca
 			st.world = st.world.clone()
 			st.world.havoc(x, "bal")
 			st.world.havoc(x, "supply")
+			if st.world.get("svcEpoch") != nil && strings.HasPrefix(iname, "ServiceKeeper") {
+				st.world.havoc(x, "svcEpoch") // the service module's own state may have changed
+			}
 			if info.ResTyp == nil {
 				return single(st, nil)
 			}
@@ -510,6 +513,11 @@ func (x *Exec) appendBuiltin(f *Frame, st *State, info *CallInfo) Val {
 		switch a := add.(type) {
 		case *GoSlice:
 			for _, e := range a.Elems {
+				if _, isT := e.(*Term); !isT && rt.Fields[1].Sort.Elem.Kind == KData {
+					if u, isU := x.unboxElem(st, e).(*Term); isU && u.Sort == rt.Fields[1].Sort.Elem {
+						e = u
+					}
+				}
 				et, ok := e.(*Term)
 				if !ok && rt.Fields[1].Sort.Elem == SBytes {
 					if bt := x.asBytes(st, e); bt != nil {
@@ -603,6 +611,19 @@ func (x *Exec) applyContract(f *Frame, st *State, fn *ssa.Function, c *Contract,
 				continue // pointee of a parameter: handled below
 			}
 			post.havoc(x, m)
+		}
+	}
+	if post.get("svcEpoch") != nil {
+		// a callee that calls into another module's keeper has the bank ledger in its modifies clause (such calls
+		// havoc it, and the callee's own frame obligations are checked): only then may the service state have moved
+		callsOut := c.ModAll
+		for _, m := range c.Modifies {
+			if m == "bal" || m == "supply" {
+				callsOut = true
+			}
+		}
+		if callsOut {
+			post.havoc(x, "svcEpoch")
 		}
 	}
 	st.world = post
